@@ -393,7 +393,11 @@ pub fn amp(seed: u64, out: &mut Outcome) {
         if let Some(t) = s2.conn(CLIENT, ch).poll_transmit(now, 1, &mut buf) {
             let from = addr(50000 + i as u16);
             let at = rng.below(5_000_000_000);
-            pending_attacks.push((at, Dgram { at: 0, seq: 0, from, to: sim.nodes[SERVER].addr, ecn: None, data: buf[..t.size].to_vec(), origin: usize::MAX, genuine: true }));
+            // the connection-creating datagram may carry bytes after its Initial packet (coalesced junk): they count once
+            let mut data = buf[..t.size].to_vec();
+            let junk = *rng.pick(&[0usize, 0, 1, 50, 600, 1200]);
+            data.extend(rng.bytes(junk));
+            pending_attacks.push((at, Dgram { at: 0, seq: 0, from, to: sim.nodes[SERVER].addr, ecn: None, data, origin: usize::MAX, genuine: true }));
         }
     }
     let n_garbage = rng.below(30);
